@@ -7,7 +7,7 @@ CLAUSES = ["len", "kept", "has", "distinct", "source", "reuse"]
 
 def run(ck):
     ck.rule = ("TLC enumerates every tunnel list up to MaxTun over {with/without target} x {no hostname, dot-free hostname(s), custom dotted "
-               "hostname} and every registered-hostname set up to MaxReg over dot-free / dotted names (configured and not), proves the "
+               "hostname} and every registered-hostname set up to MaxReg over dot-free / dotted names (configured and not), also with failing GenerateHostname calls, proves the "
                "transcribed loop meets the statement, the real SyncConfigTunnels runs on every case (scripted gateway RPC, registered list in "
                "a seeded order) and the resulting tunnel list is judged by the SyncDecl predicate in TLC; non-trivial = some tunnel needs a "
                "hostname and the registered set is not empty, or a configured hostname is duplicated / also registered")
@@ -32,7 +32,7 @@ def run(ck):
     ck.exhaustive = True
     ck.assumptions += ["hostnames are atoms: the code only compares them for equality and tests for a dot",
                        "the gateway reports each registered hostname once and GenerateHostname returns fresh dot-free names (scripted RPC)",
-                       "all RPCs succeed (a failed GenerateHostname leaves the tunnel without a hostname by design)",
+                       "a failed GenerateHostname call (cases with calls 1 / 2 / 1,2 / 1,3 failing) may leave that many tunnels without a hostname; every other clause still holds",
                        "the client object is reused across cases and reset to the case's tunnel list (NewClient's certificate cache is costly)"]
 
 
@@ -47,7 +47,7 @@ def one_round(ck, b, consts, cases):
     byi = {x["i"]: x["o"] for x in recs if "i" in x}
     if len(byi) != len(cases):
         raise vf.Infra("driver answered %d of %d cases\n%s" % (len(byi), len(cases), getattr(ck, "last_stderr", "")[-1500:]))
-    obs = "\n".join(json.dumps({"c": c["c"], "o": {"out": byi[i]["out"], "gen": byi[i]["gen"]}}) for i, c in enumerate(cases)) + "\n"
+    obs = "\n".join(json.dumps({"c": c["c"], "o": {"out": byi[i]["out"], "gen": byi[i]["gen"], "nfail": byi[i].get("nfail", 0)}}) for i, c in enumerate(cases)) + "\n"
     r2 = ck.tlc("ClientCfg", "MC_ClientCfg_sync_obs.cfg", files={"obs_sync.ndjson": obs}, constants=consts, timeout=900)
     verdict = {rec["c"] - 1: rec["e"] for rec in r2.printed}
     if len(verdict) != len(cases):
